@@ -1,14 +1,29 @@
-(* Correspondence definitions for C12: the model of a bound SELECT over the integer fragment, evaluated on the
-   bindings / statement / table the implementation ran (Engine.QueryWithBindings), compared as bags. *)
-From Coq Require Import List ZArith NArith Bool.
+(* Correspondence definitions for C12.
+   (1) per typed argument: the literal the real code builds on the live path (ExprFromValue ; Builder.ConvertVal) and the
+       literal of engine.go bindingsToExprs, compared with handler_lit / engine_lit (type and value);
+   (2) the statement (SELECT / INSERT / UPDATE / DELETE over t(a, b, c, d)) run through Engine.QueryWithBindings:
+       result rows and table afterwards compared as bags with the model evaluated (a) with the values of the typed
+       bindings and (b) on the statement with the literals parsed from the printed text substituted. *)
+From Coq Require Import List ZArith NArith Bool String Ascii Decimal.
 Import ListNotations.
-From GMS Require Import Lang.C12Prepared.
+From GMS Require Import Lang.C12Prepared Lang.C12Binding.
 
-(* bindings, projection, WHERE, table rows [a; b] in key order, observed rows (None = error) *)
-Definition case : Type := (list val * list expr * expr * list row * option (list row))%type.
+(* observed literal: its type and value (None = a value kind the model does not interpret) *)
+Definition obs_lit : Type := (ltype * option val)%type.
+
+(* typed arguments with the two observed literals (None = the real code returned an error),
+   statement, table rows [a; b; c; d] in key order, observed (result rows, table afterwards) (None = error) *)
+Definition case : Type :=
+  (list (wtype * pval * option obs_lit * option obs_lit) * stmt * list row * option (list row * list row))%type.
 
 Definition val_eqb (x y : val) : bool :=
-  match x, y with VNull, VNull => true | VInt a, VInt b => Z.eqb a b | _, _ => false end.
+  match x, y with
+  | VNull, VNull => true
+  | VInt a, VInt b => Z.eqb a b
+  | VDec a s, VDec b t => Z.eqb a b && N.eqb s t
+  | VStr a, VStr b => String.eqb a b
+  | _, _ => false
+  end.
 
 Fixpoint row_eqb (a b : row) : bool :=
   match a, b with
@@ -29,15 +44,50 @@ Fixpoint bag_eqb (a b : list row) : bool :=
   | r :: a' => match remove_first r b with Some b' => bag_eqb a' b' | None => false end
   end.
 
-Definition ok (c : case) : bool :=
-  let '(bs, proj, w, d, observed) := c in
-  let bound := select_rows bs proj w d in
-  let inlined := select_rows [] (map (subst bs) proj) (subst bs w) d in
-  match bound, inlined, observed with
-  | Some m, Some m', Some o => bag_eqb m o && bag_eqb m' o
-  | None, None, None => true
-  | _, _, _ => false
+Definition wtype_eqb (a b : wtype) : bool :=
+  match a, b with
+  | WNull, WNull | WInt8, WInt8 | WInt16, WInt16 | WInt24, WInt24 | WInt32, WInt32 | WInt64, WInt64
+  | WUint8, WUint8 | WUint16, WUint16 | WUint24, WUint24 | WUint32, WUint32 | WUint64, WUint64
+  | WFloat32, WFloat32 | WFloat64, WFloat64 | WDecimal, WDecimal | WChar, WChar | WVarChar, WVarChar | WText, WText
+  | WBinary, WBinary | WVarBinary, WVarBinary | WBlob, WBlob | WDate, WDate | WDatetime, WDatetime
+  | WTimestamp, WTimestamp | WTime, WTime | WYear, WYear | WBit, WBit | WEnum, WEnum | WSet, WSet | WJSON, WJSON
+  | WGeometry, WGeometry | WExpression, WExpression => true
+  | _, _ => false
   end.
+
+Definition ltype_eqb (a b : ltype) : bool :=
+  match a, b with
+  | TInt8, TInt8 | TUint8, TUint8 | TInt16, TInt16 | TUint16, TUint16 | TInt32, TInt32 | TUint32, TUint32
+  | TInt64, TInt64 | TUint64, TUint64 | TFloat64, TFloat64 | TDecimalInternal, TDecimalInternal
+  | TDecimalLit, TDecimalLit | TLongText, TLongText | TTime, TTime | TYear, TYear | TBit64, TBit64 | TNull, TNull => true
+  | TString w n, TString w' n' | TBinary w n, TBinary w' n' | TDatetime w n, TDatetime w' n' => wtype_eqb w w' && N.eqb n n'
+  | _, _ => false
+  end.
+
+Definition lit_ok (model : option lit) (observed : option obs_lit) : bool :=
+  match model, observed with
+  | Some l, Some (t, v) =>
+      ltype_eqb (snd l) t &&
+      match denote l, v with Some x, Some y => val_eqb x y | None, None => true | _, _ => false end
+  | None, None => true
+  | _, _ => false
+  end.
+
+Definition out_ok (m : option (list row * db)) (o : option (list row * list row)) : bool :=
+  match m, o with
+  | Some (rs, d'), Some (ors, od) => bag_eqb rs ors && bag_eqb d' od
+  | None, None => true
+  | _, _ => false
+  end.
+
+Definition ok (c : case) : bool :=
+  let '(ps, s, d, observed) := c in
+  forallb (fun x => let '(t, p, oh, oe) := x in
+                    lit_ok (handler_lit (binding_of t p)) oh &&
+                    lit_ok (engine_lit (binding_of t p)) oe) ps &&
+  let bound := map (fun x => let '(t, p, _, _) := x in bound_value t p) ps in
+  let texts := map (fun x => let '(_, p, _, _) := x in text_value p) ps in
+  out_ok (exec bound s d) observed && out_ok (exec [] (subst_stmt texts s) d) observed.
 
 Definition mismatches (cs : list (N * case)) : list N :=
   map fst (filter (fun p => negb (ok (snd p))) cs).
